@@ -488,7 +488,29 @@ pub fn check_main(a: CheckArgs) -> i32 {
                 let _ = std::fs::rename(&v.replay, &dest);
                 reported.push((v, dest));
             }
-            Ok((false, out)) => harness_errors.push(format!("replay file {} did not reproduce its violation in a fresh process: {}", v.replay, out.lines().last().unwrap_or(""))),
+            Ok((false, out)) => {
+                // The simulator is deterministic (tools/prove_determinism.sh, self-audit), so a finding that does not
+                // come back under the same plan and decisions means the code under test has a source of
+                // nondeterminism of its own (threads it starts itself, time, an address the layout does not pin).
+                // That is C08's last sentence violated outright; it is reported if it comes back in any of 6 more replays.
+                let mut hits = 0;
+                let tries = 6;
+                for _ in 0..tries {
+                    if let Ok((true, _)) = confirm_replay(&v.replay, Duration::from_secs(a.run_timeout_s + 60)) {
+                        hits += 1;
+                    }
+                }
+                if hits > 0 {
+                    let fname = std::path::Path::new(&v.replay).file_name().unwrap().to_string_lossy().to_string();
+                    let dest = format!("{replay_dir}/{fname}");
+                    let _ = std::fs::rename(&v.replay, &dest);
+                    let mut v = v;
+                    v.detail.insert(0, format!("NOTE: under the same plan and the same scheduling decisions this violation occurs in {hits} of {} replays: the code under test is nondeterministic on its own (threads it starts itself, time, addresses) - `./check C08 --replay` may need several attempts", tries + 1));
+                    reported.push((v, dest));
+                } else {
+                    harness_errors.push(format!("replay file {} did not reproduce its violation in a fresh process (7 attempts): {}", v.replay, out.lines().last().unwrap_or("")))
+                }
+            }
             Err(e) => harness_errors.push(format!("replay of {} failed: {e}", v.replay)),
         }
     }
